@@ -15,12 +15,14 @@ PART = {
                 "among all but the largest key, n>=4, threshold <= n-1, is unreachable and mute from just before the execution (crash), so the others "
                 "complete with a strict subset and indices / share-at-group-index / t-subsets are checked on a QUAL with a hole; late-execute = "
                 "period 1 s, the execute gossip packet towards one follower arrives 1.6-2.5 s late (after the kick-off time) followed IN ORDER by "
-                "everything sent to it meanwhile. A transition-time disagreement is named by what was observed: the store tap records when each "
-                "node's SaveFinished returned; completions in different beacon rounds (or less than 300 ms into a round, or timer lag >150 ms) => "
-                ".../completion-straddles-round-boundary, all completions >=300 ms inside ONE round => .../completions-in-same-round. "
+                "everything sent to it meanwhile; direct-link-lost = the bundles of one phase sent by one participant never reach one other participant directly (the highest key in half the cases), "
+                "only the re-broadcast by third nodes carries them; in the silent family a variant makes an OLD member silent while a joiner is added and the threshold rises above the number of dealers left. "
+                "Every reachable participant listed by the completed group must itself have completed. Each node's reshare transition time must be 10 rounds after a round lying between the first hand-over of a "
+                "response bundle to it and the entry of its SaveFinished (both observed at the boundary). "
                 "non-trivial = at least one epoch completed on >=1 node AND the bus actually delayed/duplicated/reordered something; "
-                "distinct by (scheme,n,t,period,reshare plan,observed delivery order hash). A case whose bundles took longer than 3/4 of the DKG "
-                "phase timeout, or whose traffic did not drain between epochs, is inconclusive (synchrony assumption of the protocol).",
+                "distinct by (scheme,n,t,period,reshare plan,observed delivery order hash). Synchrony is measured: an epoch in which the first copy of a bundle was handed to a node later than "
+                "(end of that phase on the node's own earliest schedule - 300 ms - 2 x timer lag), whose slowest bundle took > 3/4 of the phase timeout (4 s), or whose traffic did not drain "
+                "between epochs, is inconclusive (the protocol assumes a synchronous network).",
         "assumptions": [
             "kyber Scheme.Verify / share.PubPoly.Eval / tbls Recover are the trusted base",
             "the DKG protocol's synchrony assumption holds: every bundle arrives within its phase (2 s here; schedule delays stay below 1.3 s and the "
@@ -37,7 +39,7 @@ PART = {
                 "reject / join, abort, execute (real DKG, ~35% of histories may execute), failed execution (all bundles lost) and retry at the same "
                 "epoch, expiry of short real timeouts, every invalid proposal class as a command and as a packet correctly signed with the claimed "
                 "leader's real key (stale epoch, nil / empty terms, expired timeout, threshold below minimum / above n, member dropped, genesis time / "
-                "seed changed, unknown scheme, beacon period changed / scheme changed towards a remainer and towards a leaver, leader not remaining / leaving / joining, foreign beacon id), forged accept/reject/abort/execute packets "
+                "seed changed, unknown scheme, beacon period changed / scheme changed towards a remainer and towards a leaver, leader not remaining / leaving / joining, foreign beacon id, fewer remaining members than the previous threshold made up by joiners), forged accept/reject/abort/execute packets "
                 "claiming leader / remainer / joiner / leaver / outsider (well signed or signed by somebody else), replays of recorded packets, commands "
                 "from the wrong node. Directed family 'left' (every 20th history; every second one goes straight to the re-invitation): epoch 1, 1-2 reshares with everybody remaining, a reshare in which "
                 "node X leaves and the others complete (X holds Left@E, E>=3, finished E-1), optionally one more epoch without X; X is then sent 16 "
